@@ -40,7 +40,7 @@ import (
 )
 
 func mkConfig(w wl.Workload) prog.Config {
-	m := drpcmanager.Options{WriterBufferSize: w.Wbuf, Stream: drpcstream.Options{SplitSize: 1024}}
+	m := drpcmanager.Options{WriterBufferSize: w.Wbuf, Stream: drpcstream.Options{SplitSize: 1024, ManualFlush: wl.Manual(w.Name)}}
 	return prog.Config{Net: simnet.Opts{Cap: w.Capn}, Client: m, Server: m, Desc: w.Name}
 }
 
